@@ -102,14 +102,17 @@ Definition inv_ext (closed : nat -> (nat -> nat -> Q) -> nat -> nat -> Q) (n : n
   if n <=? 3 then closed n m i j else Qdiv (adjugateQ n m i j) (leibnizQ n m).
 
 (* agreement up to a relative tolerance (floating-point LAPACK results against exact rationals) *)
-Fixpoint qlist_close (tol : Q) (a b : list Q) : bool :=
+(* |x - y| <= tol * scale entrywise, scale = the largest |x| of the expected values: purely
+   relative, no absolute floor (scaled twins are as small as 2^-300) *)
+Fixpoint qlist_close (bound : Q) (a b : list Q) : bool :=
   match a, b with
   | [], [] => true
-  | x :: a', y :: b' => Qle_bool (Qabs (x - y)) (tol * qmax 1 (Qabs x)) && qlist_close tol a' b'
+  | x :: a', y :: b' => Qle_bool (Qabs (x - y)) bound && qlist_close bound a' b'
   | _, _ => false
   end.
+Definition qscale (l : list Q) : Q := fold_right (fun x m => qmax (Qabs x) m) 0%Q l.
 Definition agrees_tol (tol : Q) (vdet : nat -> (nat -> nat -> Q) -> Q)
     (vinv : nat -> (nat -> nat -> Q) -> nat -> nat -> Q) (e : expr Q) (obs : nat * list nat * list Q) : bool :=
   let '(k, s, v) := observe Q (evalQ vdet vinv e) in
   let '(k', s', v') := obs in
-  (k =? k') && list_eqb s s' && qlist_close tol v v'.
+  (k =? k') && list_eqb s s' && qlist_close (Qred (tol * qscale v)) v v'.
